@@ -39,6 +39,9 @@ func (env *Env) fact(f string) {
 
 // wfValue records the type invariant of a value read from the heap
 func (env *Env) wfValue(t Term) Term {
+	if env.facts == nil {
+		return t
+	}
 	env.vc.compDecl("$alloc", SInt)
 	al := env.vc.get(env.heap(), "$alloc")
 	switch t.Sort {
@@ -143,7 +146,25 @@ func (env *Env) resolveType(s string) types.Type {
 	}
 	prefix, base := s[:n], s[n:]
 	var t types.Type
-	if i := strings.Index(base, "."); i >= 0 {
+	if strings.HasPrefix(base, "map[") {
+		// map[K]V with K a simple type
+		d, j := 0, -1
+		for i, c := range base {
+			if c == '[' {
+				d++
+			} else if c == ']' {
+				d--
+				if d == 0 {
+					j = i
+					break
+				}
+			}
+		}
+		if j < 0 {
+			efail("bad map type %s", base)
+		}
+		t = types.NewMap(env.resolveType(base[4:j]), env.resolveType(base[j+1:]))
+	} else if i := strings.Index(base, "."); i >= 0 {
 		pn, tn := base[:i], base[i+1:]
 		p := env.lookupPkg(pn)
 		if p == nil {
@@ -684,6 +705,55 @@ func (env *Env) call(e *Expr) Term {
 		}
 		has, _, _, _ := vc.mapComps(mt)
 		return mk(and(not(eq(m.S, "0")), app("select", app("select", vc.get(env.heap(), has), m.S), k.S)), SBool)
+	case "mapUnchanged", "mapUpdated", "mapRemovedKey":
+		// relations between the old and the current contents of one map (row equalities, no quantifier)
+		m := argT(0)
+		mt, ok := m.T.Underlying().(*types.Map)
+		if !ok {
+			efail("%s on non-map", e.Name)
+		}
+		if env.old == nil {
+			efail("%s needs an old state", e.Name)
+		}
+		has, val, _, _ := vc.mapComps(mt)
+		hc, ho := app("select", vc.get(env.heap(), has), m.S), app("select", vc.get(env.old, has), m.S)
+		vcur, vo := app("select", vc.get(env.heap(), val), m.S), app("select", vc.get(env.old, val), m.S)
+		sc, so := app("select", vc.get(env.heap(), "Msize"), m.S), app("select", vc.get(env.old, "Msize"), m.S)
+		switch e.Name {
+		case "mapUnchanged":
+			return mk(and(eq(hc, ho), eq(vcur, vo), eq(sc, so)), SBool)
+		case "mapUpdated":
+			k, v := argT(1), argT(2)
+			return mk(and(eq(hc, app("store", ho, k.S, "true")), eq(vcur, app("store", vo, k.S, v.S)),
+				eq(sc, app("+", so, ite(app("select", ho, k.S), "0", "1")))), SBool)
+		}
+		efail("%s not supported", e.Name)
+	case "mk":
+		// mk(T, f1, f2, ...): a struct value
+		if len(e.Args) < 1 || e.Args[0].Op != "type" && e.Args[0].Op != "sel" && e.Args[0].Op != "ident" {
+			efail("mk(T, fields...)")
+		}
+		tn := e.Args[0].Type
+		if e.Args[0].Op == "sel" {
+			tn = e.Args[0].Args[0].Name + "." + e.Args[0].Name
+		} else if e.Args[0].Op == "ident" {
+			tn = e.Args[0].Name
+		}
+		ty := env.resolveType(tn)
+		st, ok := ty.Underlying().(*types.Struct)
+		if !ok || st.NumFields() != len(e.Args)-1 {
+			efail("mk: %s is not a struct with %d fields", tn, len(e.Args)-1)
+		}
+		srt := u.sortOf(ty)
+		var fs []string
+		for i := 1; i < len(e.Args); i++ {
+			a := argT(i)
+			if want := u.sortOf(st.Field(i - 1).Type()); a.Sort != want {
+				efail("mk: field %s has sort %s, want %s", st.Field(i-1).Name(), a.Sort, want)
+			}
+			fs = append(fs, a.S)
+		}
+		return mk(app("mk-"+srt, fs...), srt).withType(ty)
 	case "istype":
 		x := argT(0)
 		if len(e.Args) != 2 || e.Args[1].Op != "type" {
